@@ -468,4 +468,22 @@ Section Store.
     intros ops e idx i pk He Hops s. apply validating_exactly; [assumption|].
     apply store_pointwise_invariant; [constructor | assumption].
   Qed.
+  (* whoever is reported was admitted by a refresh of the history *)
+  Lemma reported_was_admitted : forall ops sync e idx i pk,
+    In (i, pk) (query (run_state init ops) sync e idx) ->
+    exists offered vo, In (Refresh offered vo) ops /\ In pk (admitted offered) /\
+                       st_accounts (run_state init ops) = admitted offered.
+  Proof.
+    intros ops sync e idx i pk H. apply query_In in H as [Hin _].
+    destruct (accounts_origin ops init) as [E | (offered & vo & Hop & E)].
+    - rewrite E in Hin. destruct Hin.
+    - exists offered, vo. rewrite E in Hin. auto.
+  Qed.
+
+  (* the outputs [run_from] prints are those of the states along [run_state] *)
+  Lemma run_from_refresh : forall ops s offered vo,
+    run_from parse cfg s (ops ++ [Refresh offered vo]) =
+    run_from parse cfg s ops ++
+    [OProbe (sort_by (fun x => x) (st_accounts (run_state s (ops ++ [Refresh offered vo]))))].
+  Proof. intros. rewrite run_from_app, run_state_app. reflexivity. Qed.
 End Store.
